@@ -256,7 +256,7 @@ def run(ctx):
             bool(cfg[0]), cfg[1], src, out, why, detail), dict(src=src, cfg=cfg, out=out, why=why))
 
     # ---- engine recorder over the other generator families ------------------------------------------
-    families = gen.families(ctx, exe)
+    families = gen.families(ctx, exe) if os.environ.get('C01_ONLY', '') != 'fragment' else []
     for fam in families:
         t0 = time.time()
         srcs = fam['sources']
